@@ -437,5 +437,81 @@ def rule_r4(ctx) -> RuleResult:
     return rr
 
 
+_JOURNAL_FILES = {"WAL": {"-wal", "-shm"}, "DELETE": {"-journal"}, "TRUNCATE": {"-journal"}, "PERSIST": {"-journal"}, "MEMORY": set(), "OFF": set()}
+
+
+def rule_r5(ctx) -> RuleResult:
+    """The restore removes the side files of the abandoned database before the backup takes its place (R2).  *Which* side files
+    exist is decided by the journal mode the schema script selects: WAL leaves `-wal`/`-shm`, the rollback-journal modes leave a
+    hot `-journal` that SQLite plays back onto whatever file it finds under the database name.  The suffixes the restore
+    removes have to cover the files of the selected mode (seed C11-9A: `journal_mode = TRUNCATE` with a restore that still
+    removes only -wal/-shm)."""
+    from ..core.sqlfacts import SqlFacts
+
+    rr = RuleResult("C11.R5", "the restore removes the side files of the journal mode the database is opened in", min_instances=1)
+    sf = SqlFacts(ctx.index)
+    modes = []
+    for st in sf.statements:
+        if st.kind == "PRAGMA":
+            import re as _re
+            m = _re.search(r"(?i)journal_mode\s*=\s*(\w+)", st.text)
+            if m:
+                modes.append((m.group(1).upper(), st))
+    if not modes:
+        raise AnalysisError("no `PRAGMA journal_mode = ...` found in the statements the package executes")
+    fn = ctx.fn("core.Wtp.create_db")
+    # string constants / folded tuples used to build the unlinked paths on the restore branch
+    removed = set()
+    for n in ast.walk(fn):
+        if isinstance(n, ast.Constant) and isinstance(n.value, str) and n.value.startswith("-") and len(n.value) <= 9:
+            removed.add(n.value)
+        if isinstance(n, ast.Name):
+            try:
+                v = ctx.index.const("core", n.id)
+            except Exception:  # noqa: BLE001
+                continue
+            if isinstance(v, (tuple, list)):
+                removed |= {x for x in v if isinstance(x, str) and x.startswith("-")}
+    globbed = any(isinstance(c, ast.Call) and isinstance(c.func, ast.Attribute) and c.func.attr == "glob" for c in ast.walk(fn))
+    for mode, st in modes:
+        need = _JOURNAL_FILES.get(mode)
+        if need is None:
+            raise AnalysisError("journal mode {} not known to the rule".format(mode))
+        missing = sorted(need - removed)
+        if missing and not globbed:
+            rr.bad(Finding("C11.R5", st.relfile, st.function, "PRAGMA journal_mode = {}".format(mode),
+                           "the database is opened in journal mode {}, which leaves {} next to it when its owner is killed, but the restore "
+                           "in create_db removes only {}: SQLite plays the surviving file back onto the restored backup and post-backup page "
+                           "versions reappear".format(mode, ", ".join("<db>" + x for x in sorted(need)), ", ".join(sorted(removed)) or "nothing"),
+                           st.call.lineno))
+        else:
+            rr.ok(st.function, "journal_mode {}: restore removes {}".format(mode, ", ".join(sorted(need)) or "nothing needed"),
+                  {"mode": mode, "removed": sorted(removed)})
+    return rr
+
+
+def rule_r6(ctx) -> RuleResult:
+    """create_db asks for `backup_db_path` twice -- once to test that the backup exists, once to rename it -- and removes the
+    database file in between; backup_db publishes under the same name.  The name therefore has to be a pure function of
+    `db_path`: a property that looks at the file system (is_symlink, resolve, exists) can answer differently after the unlink,
+    and the restore then renames a path that does not exist, having already deleted the database (seed C11-9B)."""
+    rr = RuleResult("C11.R6", "the backup's name is computed from db_path alone, without asking the file system", min_instances=1)
+    dotted = "core.Wtp.backup_db_path"
+    fn = ctx.fn(dotted)
+    fs = [c for c in walk_no_nested(fn) if isinstance(c, ast.Call) and isinstance(c.func, ast.Attribute)
+          and c.func.attr in ("is_symlink", "resolve", "exists", "is_file", "is_dir", "stat", "lstat", "readlink", "samefile", "absolute", "cwd", "glob", "iterdir")]
+    fs += [c for c in walk_no_nested(fn) if isinstance(c, ast.Call) and unparse(c.func).startswith(("os.path.", "os.readlink", "os.getcwd"))
+           and unparse(c.func) not in ("os.path.join", "os.path.basename", "os.path.dirname", "os.path.splitext")]
+    if fs:
+        for c in fs:
+            rr.bad(Finding("C11.R6", CORE, dotted, unparse(c)[:60],
+                           "the name of the backup depends on the state of the file system: create_db evaluates it before and after it has "
+                           "unlinked the database path, and the two answers can differ -- the restore then fails after the database is gone",
+                           c.lineno))
+    else:
+        rr.ok(dotted, "pure path arithmetic on db_path")
+    return rr
+
+
 def run(ctx) -> list:
-    return [rule_r1(ctx), rule_r2(ctx), rule_r3(ctx), rule_r4(ctx)]
+    return [rule_r1(ctx), rule_r2(ctx), rule_r3(ctx), rule_r4(ctx), rule_r5(ctx), rule_r6(ctx)]
